@@ -234,6 +234,7 @@ fn inner(t: &mut Tape, rep: &mut WorldReport) {
         // thread has consumed, which a diverging first round changes - not what C20 is about
         ties: false,
         distinct: true,
+        hostile_datums: false,
     };
     gen_ledger(t, &mut w0, &program, &lcfg);
     let chain = w0.chain.clone();
